@@ -197,8 +197,13 @@ package server
 // UpdatePathAggregator2ByteAs rewrites attribute-list entries in place; the list it works on must be the private
 // copy UpdatePathAttrs2ByteAs makes first (the packer shares one attribute list among all UPDATEs of a batch)
 //@ func (*fsmHandler).sendMessageloop$1
+//@   tag C14 C11
 //@   claims at-call
 //@   at-call table.UpdatePathAggregator2ByteAs( requires called(UpdatePathAttrs2ByteAs)
+// from C11 "every UPDATE respects the size limit of the session": the UPDATE handed to send has been sized by the
+// packers; a rewrite that can grow it (AS4_PATH / AS4_AGGREGATOR added for a 2-octet-AS peer) must not come after
+// the packing - the call below is not to be reached (known finding D24: it is)
+//@   at-call table.UpdatePathAttrs2ByteAs( requires !fsm.twoByteAsTrans
 
 // from C17: "a VPN route is advertised iff the peer currently has an accepted membership for one of the route's
 // targets ..., and every membership ... change triggers exactly the advertisements and withdrawals needed": when a
